@@ -232,6 +232,36 @@ pub fn repair_plan_history(rec: &mut Recorder, rng: &mut Rng, thorough: bool) {
     }
 }
 
+// long windows (thousands of packets in one request) against single requests and overlapping windows
+pub fn repair_long_windows(rec: &mut Recorder, rng: &mut Rng, thorough: bool) {
+    let mut ks: Vec<u32> = vec![1, 10, 12, 26, 55];
+    for _ in 0..(if thorough { 10 } else { 2 }) { ks.push(pick_k(rng, 120)); }
+    for k in ks {
+        let t = rng.range(1, 5) as u16;
+        let data = rng.bytes(k as usize * t as usize);
+        let cfg = cfg_for(k, t, 1, 1);
+        let n: u32 = if thorough { 12000 } else { 3000 };
+        let s = if rng.chance(1, 2) { 0 } else { rng.below(1 << 23) as u32 };
+        let samples: Vec<u32> = (0..60).map(|_| rng.below(n as u64) as u32).collect();
+        let sm = samples.clone();
+        let r = guarded(move || {
+            let enc = SourceBlockEncoder::new(3, &cfg, &data);
+            let w = enc.repair_packets(s, n);
+            let mut bad = vec![];
+            if w.len() != n as usize { bad.push(format!("{} packets instead of {n}", w.len())); return bad; }
+            for i in sm { if enc.repair_packets(s + i, 1)[0] != w[i as usize] { bad.push(format!("packet {i} of the window differs from the single request for repair index {}", s + i)); } }
+            let o = enc.repair_packets(s + n / 3, n / 4);
+            for (i, p) in o.iter().enumerate() { if *p != w[(n / 3) as usize + i] { bad.push(format!("overlapping window starting at {} disagrees at repair index {}", s + n / 3, s + n / 3 + i as u32)); break; } }
+            bad
+        });
+        match r {
+            Ok(bad) => for b in bad.iter().take(3) { rec.impl_violation(format!("repair window K={k} T={t} start={s} n={n}: {b}")); },
+            Err(_) => rec.impl_violation(format!("repair window K={k} T={t} start={s} n={n} panics")),
+        }
+        rec.count("repair_long_windows");
+    }
+}
+
 pub fn repair(rec: &mut Recorder, rng: &mut Rng, thorough: bool) {
     let n = if thorough { 300 } else { 50 };
     for it in 0..n {
@@ -462,10 +492,17 @@ pub fn object(rec: &mut Recorder, rng: &mut Rng, thorough: bool) {
                 let dr = guarded(move || {
                     let mut dec = Decoder::new(Oti::new(f, t, z, nn, al));
                     let mut last = None;
+                    let again = srcp[0].clone();
                     for p in srcp { last = dec.decode(p); }
+                    // the object stays available: a late packet and get_result() give the same bytes
+                    let late = dec.decode(again);
+                    let res = dec.get_result();
+                    if last.is_some() && (late != last || res != last) { return Some(vec![0xEE; 3]); }
                     last
                 });
-                if dr != Ok(Some(d3)) {
+                if dr == Ok(Some(vec![0xEE; 3])) && d3 != vec![0xEE; 3] {
+                    rec.impl_violation(format!("after the object was returned, a late packet / get_result() give different bytes: F={f} T={t} Z={z} N={nn} Al={al}"));
+                } else if dr != Ok(Some(d3)) {
                     rec.impl_violation(format!("decoder does not invert the layout from all source packets: F={f} T={t} Z={z} N={nn} Al={al}"));
                 }
                 rec.count("object");
@@ -703,6 +740,37 @@ pub fn decblk_directed(rec: &mut Recorder, rng: &mut Rng, thorough: bool) {
     }
 }
 
+
+// far more symbols than a block needs (more than 2^16 rows reach the solver): the answer is still the data,
+// in one call and when delivery simply continues
+pub fn decblk_flooded(rec: &mut Recorder, rng: &mut Rng, thorough: bool) {
+    for it in 0..(if thorough { 3 } else { 1 }) {
+        let k = rng.range(8, 14) as u32;
+        let t = 2u16;
+        let data = rng.bytes(k as usize * t as usize);
+        let cfg = cfg_for(k, t, 1, 1);
+        let enc = SourceBlockEncoder::new(0, &cfg, &data);
+        let mut pk: Vec<EncodingPacket> = enc.source_packets();
+        pk.remove(rng.below(k as u64) as usize);
+        let n = 66000 + 1500 * it as u32 + rng.below(3000) as u32;
+        pk.extend(enc.repair_packets(rng.below(1 << 20) as u32, n));
+        let (p1, d1) = (pk.clone(), data.clone());
+        let r = guarded(move || {
+            let mut a = SourceBlockDecoder::new(0, &cfg, d1.len() as u64);
+            let one = a.decode(p1.clone());
+            let mut b = SourceBlockDecoder::new(0, &cfg, d1.len() as u64);
+            let first = b.decode(p1[..p1.len() / 2].to_vec());
+            let second = b.decode(p1[p1.len() / 2..].to_vec());
+            (one == Some(d1.clone()), first == Some(d1.clone()), second == Some(d1))
+        });
+        match r {
+            Ok((true, true, true)) => {}
+            Ok(x) => rec.impl_violation(format!("block decoder holding {} symbols of a block of K={k}: answers (one call, first half, after the second half) correct = {:?}", pk.len(), x)),
+            Err(_) => rec.impl_violation(format!("block decoder panics when handed {} distinct symbols of a block of K={k} symbols (one source symbol missing)", pk.len())),
+        }
+        rec.count("decblk_more_than_2^16_symbols");
+    }
+}
 
 // malformed packets (C12): a payload shorter than the symbol size must never be read past its end - whatever
 // the decoder does with such a packet, it cannot produce K*T bytes from fewer payload bytes
@@ -1025,7 +1093,7 @@ pub fn linear_wide(rec: &mut Recorder, rng: &mut Rng, thorough: bool) {
     if thorough { ts.extend([65533u16, 49153, 32771, 24577, 12289, 33333]); }
     // … and blocks whose intermediate-symbol slab is large (many symbols AND wide symbols: L*T of 8 MiB and more)
     let mut shapes: Vec<(u32, u16)> = ts.iter().map(|t| (0u32, *t)).collect();
-    if !checked_build() { shapes.push((rng.range(126, 150) as u32, 65535)); if thorough { shapes.push((500, 16400)); shapes.push((1050, 9001)); } }
+    if !checked_build() { shapes.push((rng.range(126, 150) as u32, 65535)); shapes.push((rng.range(270, 300) as u32, 65528 + 7 * (rng.below(2) as u16))); if thorough { shapes.push((500, 16400)); shapes.push((1050, 9001)); } }
     for (k0, t) in shapes {
         let k = if k0 == 0 { rng.range(4, 9) as u32 } else { k0 };
         if k0 != 0 { rec.count("linear_large_slab"); }
@@ -1470,10 +1538,13 @@ pub fn solver(rec: &mut Recorder, rng: &mut Rng, thorough: bool) {
         if highdeg {
             let (w, j, p1) = (rq::num_lt_symbols(k), rq::systematic_index(k), rq::calculate_p1(k));
             let mut guard = 0;
+            // only symbols of LT degree >= 3, 4 or 5: the first steps then have r = 3, 4, 5
+            let mindeg: u32 = 3 + (it as u32 / 2 % 3);
+            rec.count(&format!("solver_dec_min_degree_{mindeg}"));
             while reps.len() < k as usize + h && guard < 100000 {
                 guard += 1;
                 let e = pick_repair_esi(rng, k);
-                if rq::intermediate_tuple(e + (kp - k), w, j, p1).0 >= 3 { reps.insert(e); }
+                if rq::intermediate_tuple(e + (kp - k), w, j, p1).0 >= mindeg { reps.insert(e); }
             }
             rec.count("solver_dec_high_degree_only");
         }
